@@ -77,6 +77,17 @@ const (
 	l3End   = 2
 )
 
+// wait4 retries on EINTR (the Go runtime signals its own threads; syscall.Wait4 does not restart).
+func wait4(pid int, st *syscall.WaitStatus) (int, error) {
+	for {
+		w, err := syscall.Wait4(pid, st, syscall.WALL, nil)
+		if err == syscall.EINTR {
+			continue
+		}
+		return w, err
+	}
+}
+
 type l3Tracer struct {
 	pid     int
 	tid     [2]int // client threads
@@ -167,24 +178,36 @@ func l3Run(script *c17l3Script, k, k2, calibClient int) (out l3Outcome) {
 		}
 		close(lines)
 	}()
-	deadline := time.Now().Add(60 * time.Second)
-	kill := func(why string) {
-		syscall.Kill(t.pid, syscall.SIGKILL)
-		out.Inconcl = why
-		for !t.exited {
+	deadline := time.Now().Add(20 * time.Second)
+	// a real watchdog: blocking waits are only interrupted by events, so make one
+	wdFired := false
+	wd := time.AfterFunc(25*time.Second, func() { wdFired = true; syscall.Kill(cmd.Process.Pid, syscall.SIGKILL) })
+	defer wd.Stop()
+	// reapAll consumes the exit notifications of every thread of the traced process: a
+	// traced thread stays a zombie until its tracer waits for it, and the thread-group
+	// leader cannot be reaped before its siblings are gone.
+	reapAll := func() {
+		for {
 			var st syscall.WaitStatus
-			wpid, err := syscall.Wait4(-1, &st, syscall.WALL, nil)
+			wpid, err := wait4(-1, &st)
 			if err != nil {
 				break
 			}
 			if wpid == t.pid && (st.Exited() || st.Signaled()) {
 				t.exited = true
+			} else if st.Stopped() {
+				syscall.PtraceCont(wpid, 0) // let a dying thread proceed to its exit
 			}
 		}
 		cmd.Wait()
 	}
+	kill := func(why string) {
+		syscall.Kill(t.pid, syscall.SIGKILL)
+		out.Inconcl = why
+		reapAll()
+	}
 	var st syscall.WaitStatus
-	if _, err := syscall.Wait4(t.pid, &st, syscall.WALL, nil); err != nil || !st.Stopped() {
+	if _, err := wait4(t.pid, &st); err != nil || !st.Stopped() {
 		kill("tracee did not stop at exec")
 		return
 	}
@@ -200,7 +223,7 @@ func l3Run(script *c17l3Script, k, k2, calibClient int) (out l3Outcome) {
 			if time.Now().After(deadline) {
 				return false
 			}
-			wpid, err := syscall.Wait4(-1, &st, syscall.WALL, nil)
+			wpid, err := wait4(-1, &st)
 			if err != nil {
 				return false
 			}
@@ -222,14 +245,14 @@ func l3Run(script *c17l3Script, k, k2, calibClient int) (out l3Outcome) {
 		// let everything run to the end and collect the verdict
 		releaseOthers()
 		ok := pump(func() bool { return t.exited })
-		cmd.Wait()
-		var last string
-		for l := range lines {
-			last = l
-		}
 		if !ok && !t.exited {
 			kill("watchdog while finishing")
 			return
+		}
+		reapAll()
+		var last string
+		for l := range lines {
+			last = l
 		}
 		if strings.HasPrefix(last, `{"skip"`) {
 			out.Skip = last
@@ -244,7 +267,7 @@ func l3Run(script *c17l3Script, k, k2, calibClient int) (out l3Outcome) {
 	}
 	if !pump(func() bool { return t.atBegin[0] && t.atBegin[1] }) {
 		if t.exited {
-			cmd.Wait()
+			reapAll()
 			var last string
 			for l := range lines {
 				last = l
@@ -311,7 +334,7 @@ func l3Run(script *c17l3Script, k, k2, calibClient int) (out l3Outcome) {
 			}
 			t.steps++
 			for {
-				wpid, err := syscall.Wait4(-1, &st, syscall.WALL, nil)
+				wpid, err := wait4(-1, &st)
 				if err != nil {
 					return count, where, false, false
 				}
@@ -374,7 +397,8 @@ func l3Run(script *c17l3Script, k, k2, calibClient int) (out l3Outcome) {
 		return
 	}
 	if k <= 0 { // calibration: count one client's library instructions, then let everything finish
-		n, _, ended, ok := stepN(calibClient, 0)
+		n, lastAt, ended, ok := stepN(calibClient, 0)
+		out.PreemptAt = lastAt
 		releaseOthers()
 		out.NA, out.AEnded, out.Steps = n, ended, t.steps
 		if !ok && !ended {
@@ -382,7 +406,7 @@ func l3Run(script *c17l3Script, k, k2, calibClient int) (out l3Outcome) {
 				finish()
 				return
 			}
-			kill("lost sync while calibrating")
+			kill(fmt.Sprintf("lost sync while calibrating (after %d library instructions, last at %s, watchdog=%v)", n, out.PreemptAt, wdFired))
 			return
 		}
 		syscall.PtraceCont(t.tid[1-calibClient], 0)
@@ -478,7 +502,7 @@ func l3RunIsolated(script *c17l3Script, k, k2, calib int) (out l3Outcome) {
 	go func() { done <- cmd.Wait() }()
 	select {
 	case <-done:
-	case <-time.After(150 * time.Second):
+	case <-time.After(60 * time.Second):
 		syscall.Kill(-cmd.Process.Pid, syscall.SIGKILL)
 		<-done
 		out.Inconcl = "tracer process exceeded its time limit"
